@@ -49,11 +49,25 @@ META = dict(
          "and advOk, termination holds on EVERY input with decidable hypotheses only (acyclic_terminates_checked, "
          "entry_points_terminate_checked); exG_advancing instantiates it for a concrete 4-node grammar. The inner loops' "
          "private budgets (len+2) are shown never to run out (positions strictly increase and stay <= len+1). PARTIAL: "
-         "recursive grammars (Forward cycles) are outside the termination theorem, Advancing is a semantic hypothesis "
+         "RECURSIVE grammars (PPProofs/Props/C06Rec.lean, lemmas PPProofs/Lemmas/ParseTermRec.lean): recursive_terminates_partial "
+         "- for node tables passing the executable test leftRankOk g r k R (every reference that can be entered without prior "
+         "consumption - an And's operands up to and including the first that `consumes`, all alternatives, wrapper children, "
+         "Forward targets, stop_on, ignorables - goes to smaller rank; operands after a consuming operand may refer anywhere, "
+         "so Forward cycles through a consuming step are allowed; all kinds incl. SkipTo; StringStart without ignorables), under Advancing, "
+         "_parse does not answer hang for every fuel > (len+1-loc)*(R+1) + r id (lexicographic induction on remaining input "
+         "and rank); recursive_terminates_checked_partial with advOk. PARTIAL: "
+         "left-recursive tables are outside the recursive theorem (rightly: the code recurses for ever), the harness "
+         "evaluates the acyclic tests and, for cyclic tables, the computed-rank test recTableOk (recursive_terminates_depth_partial, "
+         "entry_points_terminate_rec_partial: fuel > (len+1)*(D+1)+D) on extracted grammars, Advancing is a semantic hypothesis "
          "(advOk decides only a sufficient fragment: SkipTo, Opt, lookaheads, anchors as bodies are not recognised), the "
-         "harness does not yet evaluate rankOk/advOk on the extracted grammars, and the theorem is about the "
+         "theorem is about the "
          "model (`hang` = where the code would loop), tied to the code by the correspondence stream; termination of the real "
-         "entry points is observed by the oracle's per-case alarm; the other internal exception types, the diagnostic accessors and every class outside the model (Each, Regex, QuotedString, White, Dict, "
+         "entry points is observed by the oracle's per-case alarm. TIE: the two tests are core-Lean definitions "
+         "(PPModel/Mod/TermCheck.lean) evaluated by the driver (entry termcheck) on EVERY node table extracted in the "
+         "correspondence stream; for tables where depthOk g |g| root and advOk g |g| hold, entry_points_terminate_depth "
+         "(fuel 1500 >= |g|) says the model never answers hang, so a per-case timeout of the real parse_string / scan_string / "
+         "split there is reported as a failing input of that theorem (evidence: termination_fragment - how many compared "
+         "grammars / cases fall under it); the other internal exception types, the diagnostic accessors and every class outside the model (Each, Regex, QuotedString, White, Dict, "
          "IndentedBlock, helpers, pyparsing_common) are decided by the real-code oracle over the modelled generator and the "
          "whole exported zoo.",
     note="Trusted: Lean kernel; axioms propext/Classical.choice/Quot.sound; the parse model (validated differentially on "
@@ -77,6 +91,9 @@ THEOREMS = [
     "PP.Parse.advancing_of_nonempty", "PP.Parse.exG_advancing", "PP.Parse.rankOk_spec",
     "PP.Parse.consumes_sound", "PP.Parse.advancing_of_advOk", "PP.Parse.acyclic_terminates_checked",
     "PP.Parse.entry_points_terminate_checked", "PP.Parse.acyclic_terminates_depth",
+    "PP.Parse.entry_points_terminate_depth",
+    "PP.Parse.recursive_terminates_partial", "PP.Parse.recursive_terminates_checked_partial",
+    "PP.Parse.recursive_terminates_depth_partial", "PP.Parse.entry_points_terminate_rec_partial",
 ]
 
 BOUNDARY = ["", " ", "\t", "\n", " \n ", "\r\n", "a", "ab", "ab ", " ab", "a\tb", "é", "aé b", "ab\n", "ab\n\n", "b", "a,", ",", "a\n b"]
@@ -184,10 +201,18 @@ def modelled_job(job):
         k, probs, to = total_on(pp, root, s)
         n += k
         tos += to
+        term_line = None
         if to:
             probs = probs + [f"{to} entry point(s) did not terminate within the per-call limit (no nullable repetition body)"]
+            try:   # does the termination theorem cover this grammar? (asked of the driver by report())
+                nodes, ri = gram.extract(b, root)
+                term_line = gram.model_line(corr_parse.mode_sexp(("none",)), "termcheck", 0, ri, " ", "", False, [], nodes)
+            except Exception:  # noqa  (outside the model: the plain oracle statement applies)
+                term_line = None
         if probs:
             bad.append({"stream": "modelled", "prog": job["prog"], "root": job["root"], "input": s, "problems": probs[:4]})
+            if term_line:
+                bad[-1]["term_line"] = term_line
     return n, bad, tos
 
 
@@ -289,8 +314,15 @@ def report(ctx, stream, res, jobs_desc):
         if key in seen or len(seen) >= 3:
             continue
         seen.add(key)
-        ctx.fail_input("an internal exception escapes / bad diagnostics", {k: m[k] for k in m if k != "problems"},
-                       "only ParseBaseException with consistent diagnostics", probs, theorem="C06 statement (oracle)",
+        thm = "C06 statement (oracle)"
+        if m.get("term_line") and any("did not terminate" in p for p in probs):
+            try:
+                if ctx.driver.run_sharded([m["term_line"]])[0].strip().startswith("(T T"):
+                    thm = "PP.Parse.entry_points_terminate_depth (termcheck holds of the extracted table) + oracle"
+            except Exception:  # noqa
+                pass
+        ctx.fail_input("an internal exception escapes / bad diagnostics / no termination", {k: m[k] for k in m if k not in ("problems", "term_line")},
+                       "only ParseBaseException with consistent diagnostics, every entry point returns", probs, theorem=thm,
                        how="harness.props.c06.total_on(pp, expr, input)")
     return bad
 
@@ -346,7 +378,7 @@ def known_witnesses(ctx, pp):
 
 def run(ctx):
     pp = common.import_pyparsing()
-    ctx.proof_leg("PPProofs.Props.C06", THEOREMS, extra_modules=("PPProofs.Props.C06Term",))
+    ctx.proof_leg("PPProofs.Props.C06", THEOREMS, extra_modules=("PPProofs.Props.C06Term", "PPProofs.Props.C06Rec"))
     # generated facts the theorems' hypotheses rest on
     ctx.obligation("And([]).mayIndexError (WFIdx: an empty And carries the flag)", bool(pp.And([]).mayIndexError))
     ctx.obligation("IndexError is not a ParseBaseException", not issubclass(IndexError, pp.ParseBaseException))
@@ -361,8 +393,28 @@ def run(ctx):
         rng = random.Random(f"C06-{ctx.seed}-corr-{i}")
         prog, root, inputs = gen.gen_case(rng, gen.Cfg(), 4)
         jobs.append(dict(prog=prog, root=root, inputs=list(inputs) + rng.sample(BOUNDARY, 5),
-                         entries=[("parse", ()), ("parseAll", ()), ("scan", (100, True, False)), ("split", (100,))], modes=[("none",)]))
+                         entries=[("parse", ()), ("parseAll", ()), ("scan", (100, True, False)), ("split", (100,))], modes=[("none",)],
+                         want_term=True))
+    ctx.term_bad = []
     res = corr_parse.run_jobs(ctx, "model-vs-real:boundary", jobs)
+    # TERMINATION CLAUSE, tied to the theorem: on a grammar whose extracted node table passes the two executable tests
+    # (driver entry `termcheck`: depthOk at the root, advOk) the model provably never answers `hang`
+    # (entry_points_terminate_depth, fuel 1500 >= |g|); a real entry point that does not come back there is a failing input
+    tf = ctx.notes.get("termination_fragment", {}).get("model-vs-real:boundary", {})
+    ctx.obligation("model never answers hang on a grammar under entry_points_terminate_depth (theorem vs driver)",
+                   tf.get("model_hangs_under_theorem", 0) == 0, json.dumps(tf))
+    nto = 0
+    for b in ctx.term_bad:
+        if b["what"] != "real-timeout" or nto >= 2:
+            continue
+        nto += 1
+        c = b["case"]
+        ctx.fail_input("an entry point does not terminate on a non-recursive grammar whose repetition bodies / ignorables consume input",
+                       {"corr": True, "timeout": True, "prog": c["prog"], "root": c["root"], "input": c["input"], "entry": c["entry"],
+                        "opts": c["opts"]},
+                       "returns or raises ParseBaseException (model: " + b["model"][:80] + ")", "no return within the per-case limit (10x retried)",
+                       theorem="PP.Parse.entry_points_terminate_depth / entry_points_terminate_rec_partial + correspondence",
+                       how="harness.gram.run_entry under common.with_alarm")
     # a diff on which the real code reports a location beyond len+1 is a failing input outright: the model's locations
     # are proved to lie inside the string (parse_locations_inside / parseString_error_loc_inside)
     import re as _re
@@ -403,6 +455,12 @@ def replay(data):
         c = data["case"]
         pp = common.import_pyparsing()
         root = gram.prepare(gram.build(pp, c["prog"]), c["root"])
+        if c.get("timeout"):
+            try:
+                common.with_alarm(corr_parse.CASE_TIMEOUT, gram.run_entry, pp, root, c["entry"], c["input"], tuple(c.get("opts", ())))
+                return False
+            except common.CaseTimeout:
+                return True
         if c["entry"] == "scan":
             return any(e > len(c["input"].expandtabs()) + 1 for _, _, e in root.scan_string(c["input"]))
         try:
